@@ -764,7 +764,10 @@ def rule_psf_rescale(ctx, prog, rule="C05-R15"):
                              (10.0, 18.0, 21.6), (45.0, 50.0, 20.0),
                              (20.0, 20.0, 20.0)):
             env = {"src." + ax: old, "catbeam." + ax: cat / 3600.0,
-                   "imbeam." + ax: im / 3600.0}
+                   "imbeam." + ax: im / 3600.0,
+                   "__funcs__": {f_.name: f_.node
+                                 for f_ in prog.functions.values()
+                                 if f_.module == rs.module and not f_.cls}}
             try:
                 concrete.run(stmts, env)
             except concrete.Unknown as e:
@@ -832,8 +835,17 @@ def rule_guarded_pixel(ctx, prog, rule="C05-R14"):
                     ix in names_in(par.target) or iy in names_in(par.target)):
                 break
             cur = par
-        inside_test = isinstance(st, ast.If) and any(
-            x_ is sub for x_ in ast.walk(st.test))
+        # the expression the look-up sits in: the test of an `if`, or the
+        # value of an assignment (usable = 0 <= x < n and ... and
+        # isfinite(data[x, y]): python's short-circuit decides)
+        holder = None
+        if isinstance(st, (ast.If, ast.While)) and any(
+                x_ is sub for x_ in ast.walk(st.test)):
+            holder = st.test
+        elif isinstance(st, ast.Assign) and any(
+                x_ is sub for x_ in ast.walk(st.value)):
+            holder = st.value
+        inside_test = holder is not None
         n += 1
         reached = []
         for (vx, vy) in ((-1, 5), (5, -1), (10, 5), (5, 10)):
@@ -851,7 +863,7 @@ def rule_guarded_pixel(ctx, prog, rule="C05-R14"):
                 continue
             if inside_test:
                 try:
-                    concrete.ev(st.test, env)
+                    concrete.ev(holder, env)
                     continue        # decided without touching the pixel
                 except concrete.Unknown:
                     pass
